@@ -302,7 +302,10 @@ fn same_state(out: &mut Out, r: &mut Rng, cx: &Cx, enc: &Encryptor, levels: &[he
     let expand = |c: Ciphertext| if c.contains_seed() { c.expand_seed(ctx) } else { c };
     let names = ["encrypt_zero_symmetric_with_u_prng", "encrypt_zero_symmetric_new_with_u_prng", "encrypt_zero_symmetric_at_with_u_prng", "encrypt_zero_symmetric_new_at_with_u_prng",
         "encrypt_symmetric_with_u_prng", "encrypt_symmetric_new_with_u_prng", "encrypt_zero_with_u_prng", "encrypt_zero_new_with_u_prng", "encrypt_zero_at_with_u_prng",
-        "encrypt_zero_new_at_with_u_prng", "encrypt_with_u_prng", "encrypt_new_with_u_prng"];
+        "encrypt_zero_new_at_with_u_prng", "encrypt_with_u_prng", "encrypt_new_with_u_prng",
+        // the routines underneath, called directly (no level switching around them)
+        "rlwe::encrypt_zero::symmetric_with_c1_prng", "rlwe::encrypt_zero::asymmetric_with_u_prng"];
+    let ntt_native = cx.scheme != SchemeType::BFV;
     for (vi, name) in names.iter().enumerate() {
         if cx.scheme == SchemeType::CKKS && name.starts_with("encrypt_") && !name.starts_with("encrypt_zero") { continue; }
         let pid = levels[r.below(levels.len() as u64) as usize];
@@ -313,7 +316,9 @@ fn same_state(out: &mut Out, r: &mut Rng, cx: &Cx, enc: &Encryptor, levels: &[he
             4 => enc.encrypt_symmetric_with_u_prng(plain, g, &mut c), 5 => return enc.encrypt_symmetric_new_with_u_prng(plain, g),
             6 => enc.encrypt_zero_with_u_prng(g, &mut c), 7 => return enc.encrypt_zero_new_with_u_prng(g),
             8 => enc.encrypt_zero_at_with_u_prng(&pid, g, &mut c), 9 => return enc.encrypt_zero_new_at_with_u_prng(&pid, g),
-            10 => enc.encrypt_with_u_prng(plain, g, &mut c), _ => return enc.encrypt_new_with_u_prng(plain, g) } c };
+            10 => enc.encrypt_with_u_prng(plain, g, &mut c), 11 => return enc.encrypt_new_with_u_prng(plain, g),
+            12 => heathcliff::util::rlwe::encrypt_zero::symmetric_with_c1_prng(enc.secret_key(), ctx, &pid, ntt_native, g, false, &mut c),
+            _ => heathcliff::util::rlwe::encrypt_zero::asymmetric_with_u_prng(enc.public_key(), ctx, &pid, ntt_native, g, &mut c) } c };
         let mut run = |r: &mut Rng, seed: &Seed, pre: usize| -> (Ciphertext, Vec<Sample>) {
             let ent: Vec<Seed> = (0..4).map(|_| rand_seed(r)).collect();
             let mut g = explicit_gen(seed, pre);
@@ -324,7 +329,7 @@ fn same_state(out: &mut Out, r: &mut Rng, cx: &Cx, enc: &Encryptor, levels: &[he
         let res = std::panic::catch_unwind(std::panic::AssertUnwindSafe(|| (run(r, &gseed, pre), run(r, &gseed, pre), run(r, &gseed, pre + 4), run(r, &other_seed, pre))));
         let ((a, sa), (b, sb), (c, sc), (d, sd)) = match res { Ok(x) => x, Err(_) => { let m = LAST_PANIC.with(|p| p.borrow().clone()); out.raw(&format!("!FAIL same_state_same_mask {} :: refused: {} # samestate-{}", name, m.replace('\n', " "), cls)); continue } };
         let id = format!("{} scheme={} n={} seed={} consumed={}", name, cx.scheme as u8, cx.n, hex(&gseed[..8]), pre);
-        if vi < 6 {
+        if vi < 6 || vi == 12 {
             // symmetric: c1 is the mask
             let same = a.poly(1) == b.poly(1) && a.parms_id() == b.parms_id();
             let diff = a.poly(1) != c.poly(1) && a.poly(1) != d.poly(1);
@@ -339,7 +344,7 @@ fn same_state(out: &mut Out, r: &mut Rng, cx: &Cx, enc: &Encryptor, levels: &[he
             verdict(out, ua.is_some() && ua == ub, &format!("same_state_same_mask {}", id), &format!("samestate-{}", cls), "two calls handed generators in the same state drew different ternary masks u");
             // (3^N masks: coincidences by chance below N = 32 are not counted, as in the history verdicts)
             if cx.n >= 32 { verdict(out, ua != uc && ua != ud, &format!("different_state_different_mask {}", id), &format!("samestate-{}", cls), "a generator in another state drew the same ternary mask u"); }
-            if cx.scheme == SchemeType::BFV && a.parms_id() == &levels[0] && !a.is_ntt_form() {
+            if cx.scheme == SchemeType::BFV && a.parms_id() == &levels[0] && !a.is_ntt_form() && vi != 13 {
                 let qs: Vec<u64> = ctx.first_context_data().unwrap().parms().coeff_modulus().iter().map(|m| m.value()).collect();
                 let n = cx.n;
                 let small = |x: &Ciphertext, y: &Ciphertext| (0..qs.len()).all(|j| (0..n).all(|i| { let q = qs[j]; let dlt = (x.poly(1)[j * n + i] + q - y.poly(1)[j * n + i]) % q; dlt <= 42 || q - dlt <= 42 }));
@@ -436,7 +441,8 @@ fn history(out: &mut Out, r: &mut Rng, cx: &Cx, tag: &str, len: usize) {
                 // API-visible c1 is the recorded uniform sample (after expansion when seeded)
                 let c1: Vec<u64> = if ct.contains_seed() { ct.clone().expand_seed(ctx).poly(1).to_vec() } else { ct.poly(1).to_vec() };
                 // (BFV without seed: the draw is taken as NTT form and c1 is its inverse transform — not compared here)
-                if seeded || as_pk || cx.scheme != SchemeType::BFV {
+                // (likewise when a seed was requested but the level has no room for it: the library then falls back to the unseeded path)
+                if (seeded && (room || as_pk)) || as_pk || cx.scheme != SchemeType::BFV {
                     verdict(out, c1 == samples[0].data, &format!("c1_is_expansion_of_seed {} {} seeded={}", tag, h.ops, seeded), &cls, "c1 of the ciphertext differs from the uniform polynomial drawn for it");
                 }
                 let want_moduli = if as_pk { &key_moduli } else { &level_moduli };
@@ -740,6 +746,15 @@ pub fn run(out: &mut Out, thorough: bool, seed: u64, extra: &[String]) {
             let (ops, cls) = gen_ops(&mut r, style);
             let lhs = format!("rng_ops {} {}", xofdata(&[(s, ops_upper(&ops))]), ops_str(&ops));
             out.case(&lhs, cls, || run_ops(&s, &ops));
+            // the generator FACTORY with a fixed seed hands out that very generator, every time (`get_rng`, `get_rng_rc`), and `set_seed` replaces the seed
+            if rep % 6 == 0 {
+                use heathcliff::util::BlakeRNGFactory;
+                let run_gen = |mut g: BlakeRNG| -> String { let mut v: Vec<String> = ops.iter().map(|o| apply(&mut g, o)).collect(); v.push(apply(&mut g, &Op::F(16))); v.join(",") };
+                let f = BlakeRNGFactory::from_seed(PRNGSeed(s));
+                out.case(&lhs, &format!("factory-{}", cls), || run_gen(f.get_rng()));
+                out.case(&lhs, &format!("factory-second-{}", cls), || { let _ = f.get_rng(); run_gen(f.get_rng_rc()) });
+                out.case(&lhs, &format!("factory-set-seed-{}", cls), || { let mut f2 = BlakeRNGFactory::from_seed(PRNGSeed([0x5a; 64])); f2.set_seed(PRNGSeed(s)); run_gen(f2.get_rng()) });
+            }
             if style <= 1 {
                 // the same total read in one piece, and in two other chunkings (harness-side oracle, independent blake3 recomputation)
                 let total: usize = ops.iter().map(|o| if let Op::F(n) = o { *n } else { 0 }).sum();
